@@ -115,7 +115,7 @@ def deref (_ : Inputs) : Value → St → Option Res
     * std `<*const T>::read_volatile(self) -> T` with `T = ClockErrorBound`: a plain copy out of the
       segment: `SL.N` = 7 word loads in index order, each returning what the environment provides (as a
       `u64`), and the value read is the list of those words. -/
-def method (w : Inputs) : Value → String → List Value → St → Option Res
+def methodA (w : Inputs) : Value → String → List Value → St → Option Res
   | .ext "ref:AtomicU16" [.str loc], "load", [ord], st =>
     match asU16 (w.inp st.pos) with
     | some v => some (.val v { st with pos := st.pos + 1, log := st.log ++ [evLoad (.str loc) ord v] })
@@ -133,16 +133,175 @@ def method (w : Inputs) : Value → String → List Value → St → Option Res
   | _, _, _, _ => none
 
 /-- std: `atomic::fence(order)` -/
-def call (_ : Inputs) : String → List Value → St → Option Res
+def callA (_ : Inputs) : String → List Value → St → Option Res
   | "atomic::fence", [ord], st => some (.val .unit (st.emit (evFence ord)))
   | "fence", [ord], st => some (.val .unit (st.emit (evFence ord)))
   | _, _, _ => none
+
+/-! ## B. a private copy of the header -/
+
+/-- an `AtomicU16` / `AtomicU32` that is a field of a VALUE owned by the running function (the
+    `ShmHeader` that `ShmHeader::read` builds from the bytes `read(2)` returned): nobody else can access it -/
+def atomicVal (v : Value) : Value := .ext "atomicVal" [v]
+
+/-- * std `AtomicU16::load` / `AtomicU32::load` on such a private atomic returns the value it holds, whatever
+      the ordering, and is no shared access (nothing is logged);
+    * std `AtomicU32::into_inner(self)` consumes it and returns the value. -/
+def methodB : Value → String → List Value → St → Option Res
+  | .ext "atomicVal" [v], "load", [_ord], st => some (.val v st)
+  | .ext "atomicVal" [v], "into_inner", [], st => some (.val v st)
+  | _, _, _, _ => none
+
+/-! ## C. files and system calls (the open path of `ShmReader::new`) -/
+
+/-- a raw address as a symbolic NAME (`"segment"`: where `mmap` put the segment; `"MAP_FAILED"`: libc's
+    `(void*) -1`).  Two addresses are equal iff their names are: the core compares field-less `enumv`s by
+    name, which is what `segment == libc::MAP_FAILED` needs. -/
+def addr (name : String) : Value := .enumv ("addr:" ++ name) []
+
+/-- the address `segment + n` (`cursor.add(n)` on the `*const u8` cursor) -/
+def addrPlus (n : Value) : Value := .ext "addr:segment+" [n]
+
+/-- a constant of the libc crate, by name (its numeric value is never inspected by the code) -/
+def libcConst (name : String) : Value := .ext "libc" [.str name]
+
+/-- `errno::Errno(e)` -/
+def errnoValue (e : Value) : Value := .ext "Errno" [e]
+
+/-- `Err(ShmError::SyscallError(errno, origin))` -/
+def syscallErr (e : Value) (origin : String) : Value :=
+  .enumv "Err" [.enumv "ShmError::SyscallError" [errnoValue e, .str origin]]
+
+/-- events of part C: a system call with its arguments and what it returned -/
+def evSys (name : String) (args : List Value) (ret : Value) : Value := .ext "sys" [.str name, .list args, ret]
+
+/-- an input that must be a number, as the C type `t` of a return value (no reduction: a system call
+    returns a value of its type; anything else: no rule) -/
+def asInt (t : IntTy) : Value → Option Value
+  | .int _ n => if t.lo ≤ n ∧ n ≤ t.hi then some (.int t n) else none
+  | _ => none
+
+def pathC : String → Option Value
+  | "libc::O_RDONLY" => some (libcConst "O_RDONLY")
+  | "libc::PROT_READ" => some (libcConst "PROT_READ")
+  | "libc::MAP_SHARED" => some (libcConst "MAP_SHARED")
+  -- libc: `pub const MAP_FAILED: *mut c_void = !0 as *mut c_void;`
+  | "libc::MAP_FAILED" => some (addr "MAP_FAILED")
+  -- `std::marker::PhantomData`: a zero-sized value
+  | "marker::PhantomData" => some (.opaque "PhantomData")
+  | _ => none
+
+/-- * `libc::open(path, flags) -> c_int`, `libc::read(fd, buf, count) -> ssize_t`: return what the
+      environment provides (the next input, as an `i32` resp. `isize`), logged with the arguments;
+    * `libc::mmap(addr, len, prot, flags, fd, off) -> *mut c_void`: returns the next input, which must be
+      an address (`addr "MAP_FAILED"` on failure, else the address of the new mapping);
+    * `std::ptr::null_mut()`: the null pointer (only ever passed to `mmap`);
+    * `MaybeUninit::<T>::uninit()`: a buffer without content;
+    * `FdGuard(fd)`: the constructor of the tuple struct, i.e. the tuple of its fields (`fdguard.0`). -/
+def callC (w : Inputs) : String → List Value → St → Option Res
+  | "libc::open", [p, flags], st =>
+    match asInt .i32 (w.inp st.pos) with
+    | some fd => some (.val fd { st with pos := st.pos + 1, log := st.log ++ [evSys "open" [p, flags] fd] })
+    | none => none
+  | "libc::read", [fd, buf, count], st =>
+    match asInt .isize (w.inp st.pos) with
+    | some r => some (.val r { st with pos := st.pos + 1, log := st.log ++ [evSys "read" [fd, buf, count] r] })
+    | none => none
+  | "libc::mmap", [a, len, prot, flags, fd, off], st =>
+    match w.inp st.pos with
+    | .enumv p [] =>
+      some (.val (.enumv p []) { st with pos := st.pos + 1,
+                                         log := st.log ++ [evSys "mmap" [a, len, prot, flags, fd, off] (.enumv p [])] })
+    | _ => none
+  | "ptr::null_mut", [], st => some (.val (.ext "null" []) st)
+  | "MaybeUninit::uninit", [], st => some (.val (.ext "MaybeUninit" []) st)
+  | "FdGuard", [fd], st => some (.val (.tuple [fd]) st)
+  | _, _, _ => none
+
+/-- * `CStr::as_ptr(&self)`: the pointer to the path string (only ever passed to `open`);
+    * `MaybeUninit::as_mut_ptr(&mut self)`, `<*mut T>::cast::<U>()`: the pointer to the buffer (only ever
+      passed to `read`);
+    * `MaybeUninit::assume_init(self)`: the content of the buffer — what the preceding `read(2)` deposited
+      there, which the environment decides: the next input, which must be a `ShmHeader` value;
+    * `<*mut c_void>::cast::<U>()` on an address: the same address;
+    * `<*const u8>::add(self, n)` on the address of the segment: the address `segment + n`. -/
+def methodC (w : Inputs) : Value → String → List Value → St → Option Res
+  | .ext "CStr" [p], "as_ptr", [], st => some (.val (.ext "ptr:c_char" [p]) st)
+  | .ext "MaybeUninit" [], "as_mut_ptr", [], st => some (.val (.ext "ptr:buf" []) st)
+  | .ext "ptr:buf" [], "cast", [], st => some (.val (.ext "ptr:buf" []) st)
+  | .ext "MaybeUninit" [], "assume_init", [], st =>
+    match w.inp st.pos with
+    | .struct "ShmHeader" fs => some (.val (.struct "ShmHeader" fs) { st with pos := st.pos + 1 })
+    | _ => none
+  | .enumv "addr:segment" [], "cast", [], st => some (.val (addr "segment") st)
+  | .enumv "addr:segment" [], "add", [n], st => some (.val (addrPlus n) st)
+  | .ext "addr:segment+" [n], "cast", [], st => some (.val (addrPlus n) st)
+  | _, _, _, _ => none
+
+/-- `(*p).version`, `(*p).generation` with `p` the address of the mapped segment cast to `*const
+    ShmHeader`: the places of the two atomic cells of the mapped header (`ptr::addr_of!` of a place is the
+    pointer to it; `*` and `&` are transparent in the core, so place and pointer are the same value) -/
+def fieldOfC : Value → String → Option Value
+  | .enumv "addr:segment" [], "version" => some (ptrA16 "version")
+  | .enumv "addr:segment" [], "generation" => some (ptrA16 "generation")
+  | _, _ => none
+
+/-- `*cursor.cast::<ClockErrorBound>()` with `cursor = segment + n`: the record of the mapped segment,
+    PROVIDED `n` is `size_of::<ShmHeader>()` (the record follows the header; the size comes from the table
+    supplied by the statement) -/
+def derefC (w : Inputs) : Value → St → Option Res
+  | .ext "addr:segment+" [.int .usize n], st =>
+    match w.sizes.lookup "ShmHeader" with
+    | some k => if n = (k : Int) then some (.val ptrCeb st) else none
+    | none => none
+  | _, _ => none
+
+/-- * `syserror!(origin)` (lib.rs): `Err(ShmError::SyscallError(errno::errno(), origin))`; `errno()` is
+      what the environment provides (the next input, an `i32`);
+    * `concat!(s)` of one string literal: that string;
+    * `ptr::addr_of!(place)` / `ptr::addr_of_mut!(place)`: the pointer to the place (see `fieldOfC`). -/
+def macroC (w : Inputs) : String → List Value → St → Option Res
+  | "syserror", [.str origin], st =>
+    match asInt .i32 (w.inp st.pos) with
+    | some e => some (.val (syscallErr e origin)
+        { st with pos := st.pos + 1, log := st.log ++ [evSys "errno" [] e] })
+    | none => none
+  | "concat", [.str s], st => some (.val (.str s) st)
+  | "ptr::addr_of", [v], st => some (.val v st)
+  | "ptr::addr_of_mut", [v], st => some (.val v st)
+  | _, _, _ => none
+
+/-! ## the dictionary -/
+
+def method (w : Inputs) (v : Value) (m : String) (args : List Value) (st : St) : Option Res :=
+  match methodA w v m args st with
+  | some r => some r
+  | none =>
+    match methodB v m args st with
+    | some r => some r
+    | none => methodC w v m args st
+
+def call (w : Inputs) (name : String) (args : List Value) (st : St) : Option Res :=
+  match callA w name args st with
+  | some r => some r
+  | none => callC w name args st
+
+def pathAll (name : String) : Option Value :=
+  match path name with
+  | some v => some v
+  | none => pathC name
+
+def derefAll (w : Inputs) (v : Value) (st : St) : Option Res :=
+  match deref w v st with
+  | some r => some r
+  | none => derefC w v st
 
 /-- The dictionary.  `litFallback := some .i32`: Rust's integer fallback — in `ShmReader::snapshot` the
     counter `let mut retries = 1_000_000; while retries > 0 { .. retries -= 1; }` is constrained by nothing
     but unsuffixed literals, hence an `i32`; no other pair of untyped integer operands occurs in the
     functions of this group (every other literal meets a typed operand and takes its type). -/
 def ext : Ext :=
-  { Ext.none with path := path, deref := deref, method := method, call := call, litFallback := some .i32 }
+  { Ext.none with path := pathAll, deref := derefAll, method := method, call := call, macroCall := macroC,
+                  fieldOf := fieldOfC, litFallback := some .i32 }
 
 end ClockBound.Rs.DictShm
